@@ -1014,3 +1014,165 @@ VARIANTS += [
  dict(name='table-bool-set-compared-with-true-by-mistake', file=P, expect='flagged(scan/)', find=SCAN,
       replace=_sub(SCAN_TABLE_BOOLMAP, '\t\tif expectedInDescriptor[name] {\n\t\t\tcontinue\n\t\t}\n\t\textra = append(extra, name)\n', '\t\tif expectedInDescriptor[name] == true {\n\t\t\textra = append(extra, name)\n\t\t}\n')),
 ]
+
+# ===== the raw path recognised by ROLE (a call of the generic signer on an object holding the plugin-backed primitive signer),
+# wherever it is written: constructor helper + call in Sign/SignBlob, fully inline, primitive signer built by its own constructor
+RAW_FN = r'''func (s *PluginSigner) generateSignature(ctx context.Context, desc ocispec.Descriptor, opts notation.SignerSignOptions, ks signature.KeySpec, metadata *plugin.GetMetadataResponse, pluginConfig map[string]string) ([]byte, *signature.SignerInfo, error) {
+	logger := log.GetLogger(ctx)
+	logger.Debug("Generating signature by plugin")
+	genericSigner := GenericSigner{
+		signer: &pluginPrimitiveSigner{
+			ctx:          ctx,
+			plugin:       s.plugin,
+			keyID:        s.keyID,
+			pluginConfig: pluginConfig,
+			keySpec:      ks,
+		},
+	}
+	opts.SigningAgent = fmt.Sprintf("%s %s/%s", signingAgent, metadata.Name, metadata.Version)
+	return genericSigner.Sign(ctx, desc, opts)
+}
+'''
+RAW_CTOR = r'''func (s *PluginSigner) genericSigner(ctx context.Context, ks signature.KeySpec, pluginConfig map[string]string) *GenericSigner {
+	return &GenericSigner{
+		signer: &pluginPrimitiveSigner{
+			ctx:          ctx,
+			plugin:       s.plugin,
+			keyID:        s.keyID,
+			pluginConfig: pluginConfig,
+			keySpec:      ks,
+		},
+	}
+}
+
+func withPluginAgent(opts notation.SignerSignOptions, metadata *plugin.GetMetadataResponse) notation.SignerSignOptions {
+	opts.SigningAgent = fmt.Sprintf("%s %s/%s", signingAgent, metadata.Name, metadata.Version)
+	return opts
+}
+'''
+SIGN_RAW_CALL = '\t\tsig, signerInfo, err := s.generateSignature(ctx, desc, opts, ks, metadata, mergedConfig)\n'
+SIGN_RAW_CTOR_CALL = '\t\tsig, signerInfo, err := s.genericSigner(ctx, ks, mergedConfig).Sign(ctx, desc, withPluginAgent(opts, metadata))\n'
+BLOB_TAIL = r'''	// get descriptor to sign
+	desc, err := getDescriptor(ks, descGenFunc)
+	if err != nil {
+		return nil, nil, err
+	}
+	logger.Debugf("Using plugin %v with capabilities %v to sign blob using descriptor %+v", metadata.Name, metadata.Capabilities, desc)
+	if metadata.HasCapability(plugin.CapabilitySignatureGenerator) {
+		return s.generateSignature(ctx, desc, opts, ks, metadata, mergedConfig)
+	} else if metadata.HasCapability(plugin.CapabilityEnvelopeGenerator) {
+		return s.generateSignatureEnvelope(ctx, desc, opts)
+	}
+'''
+BLOB_TAIL_CTOR = r'''	if metadata.HasCapability(plugin.CapabilitySignatureGenerator) {
+		return s.genericSigner(ctx, ks, mergedConfig).SignBlob(ctx, descGenFunc, withPluginAgent(opts, metadata))
+	} else if metadata.HasCapability(plugin.CapabilityEnvelopeGenerator) {
+		desc, err := getDescriptor(ks, descGenFunc)
+		if err != nil {
+			return nil, nil, err
+		}
+		return s.generateSignatureEnvelope(ctx, desc, opts)
+	}
+'''
+def _ctor(sign=SIGN_RAW_CTOR_CALL, blob=BLOB_TAIL_CTOR, ctor=RAW_CTOR):
+    return [(P, RAW_FN, ctor), (P, SIGN_RAW_CALL, sign), (P, BLOB_TAIL, blob)]
+
+# fully inline: no helper at all, the object is built and used in Sign / SignBlob
+SIGN_RAW_INLINE = r'''		raw := &GenericSigner{signer: &pluginPrimitiveSigner{ctx: ctx, plugin: s.plugin, keyID: s.keyID, pluginConfig: mergedConfig, keySpec: ks}}
+		opts.SigningAgent = fmt.Sprintf("%s %s/%s", signingAgent, metadata.Name, metadata.Version)
+		sig, signerInfo, err := raw.Sign(ctx, desc, opts)
+'''
+BLOB_RAW_INLINE = r'''		raw := GenericSigner{signer: &pluginPrimitiveSigner{ctx: ctx, plugin: s.plugin, keyID: s.keyID, pluginConfig: mergedConfig, keySpec: ks}}
+		opts.SigningAgent = fmt.Sprintf("%s %s/%s", signingAgent, metadata.Name, metadata.Version)
+		return raw.Sign(ctx, desc, opts)
+'''
+def _inline(sign=SIGN_RAW_INLINE, blob=BLOB_RAW_INLINE):
+    return [(P, RAW_FN, ''), (P, SIGN_RAW_CALL, sign), (P, '\t\treturn s.generateSignature(ctx, desc, opts, ks, metadata, mergedConfig)\n', blob)]
+
+# the primitive signer has its own constructor below the raw-path helper (key spec handed down two levels)
+RAW_FN_PRIM_CTOR = _sub(RAW_FN, '''	genericSigner := GenericSigner{
+		signer: &pluginPrimitiveSigner{
+			ctx:          ctx,
+			plugin:       s.plugin,
+			keyID:        s.keyID,
+			pluginConfig: pluginConfig,
+			keySpec:      ks,
+		},
+	}
+''', '''	genericSigner := GenericSigner{signer: s.primitiveSigner(ctx, ks, pluginConfig)}
+''') + r'''
+func (s *PluginSigner) primitiveSigner(ctx context.Context, described signature.KeySpec, config map[string]string) *pluginPrimitiveSigner {
+	return &pluginPrimitiveSigner{
+		ctx:          ctx,
+		plugin:       s.plugin,
+		keyID:        s.keyID,
+		pluginConfig: config,
+		keySpec:      described,
+	}
+}
+'''
+# the raw-path helper keeps the generic signer in a local and tests the error itself
+RAW_FN_ERR_LOCAL = _sub(RAW_FN, '\treturn genericSigner.Sign(ctx, desc, opts)\n',
+    '\tsig, signerInfo, err := genericSigner.Sign(ctx, desc, opts)\n\tif err != nil {\n\t\treturn nil, nil, fmt.Errorf("raw signature: %w", err)\n\t}\n\treturn sig, signerInfo, nil\n')
+
+VARIANTS += [
+ dict(name='benign-raw-generic-signer-constructor', expect='silent', edits=_ctor(),
+      why='Sign/SignBlob call GenericSigner.Sign/SignBlob on the object a constructor helper built around the plugin-backed primitive signer'),
+ dict(name='benign-raw-constructor-result-in-local', expect='silent',
+      edits=_ctor(sign='\t\traw := s.genericSigner(ctx, ks, mergedConfig)\n\t\topts = withPluginAgent(opts, metadata)\n\t\tsig, signerInfo, err := raw.Sign(ctx, desc, opts)\n'),
+      why='the constructed object is held in a local before the call'),
+ dict(name='benign-raw-path-inline', expect='silent', edits=_inline(),
+      why='no helper: the generic signer is built around the plugin-backed primitive signer and called in Sign / SignBlob themselves'),
+ dict(name='benign-raw-primitive-signer-constructor', file=P, expect='silent', find=RAW_FN, replace=RAW_FN_PRIM_CTOR,
+      why='the primitive signer is built by its own constructor; the key spec is handed down two levels from the checked lookup'),
+ dict(name='benign-raw-helper-error-local', file=P, expect='silent', find=RAW_FN, replace=RAW_FN_ERR_LOCAL,
+      why='the helper tests the error of the generic signer itself and returns the very results of that call'),
+ # the new shapes with the property broken
+ dict(name='ctor-raw-call-under-wrong-capability', expect='flagged(dispatch/SignBlob)',
+      edits=_ctor(blob=_sub(BLOB_TAIL_CTOR, '\tif metadata.HasCapability(plugin.CapabilitySignatureGenerator) {\n', '\tif !metadata.HasCapability(plugin.CapabilityEnvelopeGenerator) {\n'))),
+ dict(name='ctor-raw-call-error-dropped', expect='flagged(dispatch/Sign)',
+      edits=_ctor(sign='\t\tsig, signerInfo, _ := s.genericSigner(ctx, ks, mergedConfig).Sign(ctx, desc, withPluginAgent(opts, metadata))\n\t\tif sig == nil {\n\t\t\terr = fmt.Errorf("no signature")\n\t\t}\n')),
+ dict(name='ctor-falls-back-to-local-key', expect='flagged(dispatch/Sign)',
+      edits=_ctor(ctor=_sub(RAW_CTOR, '\treturn &GenericSigner{\n', '\tif local, err := NewGenericSignerFromFiles(pluginConfig["key"], pluginConfig["certs"]); err == nil {\n\t\treturn local\n\t}\n\treturn &GenericSigner{\n'))),
+ dict(name='ctor-key-id-of-config', expect='flagged(raw/primitive-signer)',
+      edits=_ctor(ctor=_sub(RAW_CTOR, '\t\t\tkeyID:        s.keyID,\n', '\t\t\tkeyID:        pluginConfig["keyID"],\n'))),
+ dict(name='ctor-primitive-signer-swapped-after-construction', expect='flagged(dispatch/Sign)',
+      edits=_ctor(sign='\t\traw := s.genericSigner(ctx, ks, mergedConfig)\n\t\tif other, ok := opts.Timestamper.(signature.Signer); ok {\n\t\t\traw.signer = other\n\t\t}\n\t\tsig, signerInfo, err := raw.Sign(ctx, desc, withPluginAgent(opts, metadata))\n')),
+ dict(name='ctor-keyspec-error-ignored', expect='flagged(raw/primitive-signer/key-spec-origin)',
+      edits=_ctor() + [(P, '\tks, err := s.getKeySpec(ctx, mergedConfig)\n\tif err != nil {\n\t\treturn nil, nil, err\n\t}\n\n', '\tks, _ := s.getKeySpec(ctx, mergedConfig)\n\n')]),
+ dict(name='inline-keyspec-not-the-described-one', expect='flagged(raw/primitive-signer)',
+      edits=_inline(sign=_sub(SIGN_RAW_INLINE, 'keySpec: ks}}', 'keySpec: signature.KeySpec{Type: ks.Type, Size: 2048}}}'))),
+ dict(name='inline-keyspec-error-ignored', expect='flagged(raw/primitive-signer/key-spec-origin)',
+      edits=_inline() + [(P, '\tks, err := s.getKeySpec(ctx, mergedConfig)\n\tif err != nil {\n\t\treturn nil, nil, err\n\t}\n\n', '\tks, _ := s.getKeySpec(ctx, mergedConfig)\n\n')]),
+ dict(name='inline-raw-call-without-capability', expect='flagged(dispatch/SignBlob)',
+      edits=_inline() + [(P, '\tlogger.Debugf("Using plugin %v with capabilities %v to sign blob using descriptor %+v", metadata.Name, metadata.Capabilities, desc)\n\tif metadata.HasCapability(plugin.CapabilitySignatureGenerator) {\n',
+                          '\tlogger.Debugf("Using plugin %v with capabilities %v to sign blob using descriptor %+v", metadata.Name, metadata.Capabilities, desc)\n\tif len(metadata.Capabilities) > 0 {\n')]),
+ dict(name='primitive-constructor-keyspec-from-elsewhere', file=P, expect='flagged(raw/primitive-signer/key-spec-origin)', find=RAW_FN,
+      replace=_sub(RAW_FN_PRIM_CTOR, 's.primitiveSigner(ctx, ks, pluginConfig)', 's.primitiveSigner(ctx, signature.KeySpec{Type: signature.KeyTypeEC, Size: 256}, pluginConfig)')),
+ dict(name='raw-helper-returns-other-signer-info', file=P, expect='flagged(dispatch/Sign)', find=RAW_FN,
+      replace=_sub(RAW_FN_ERR_LOCAL, '\treturn sig, signerInfo, nil\n', '\tsignerInfo = &signature.SignerInfo{SignedAttributes: signerInfo.SignedAttributes}\n\treturn sig, signerInfo, nil\n')),
+ dict(name='raw-helper-error-of-generic-signer-swallowed', file=P, expect='flagged(dispatch/Sign)', find=RAW_FN,
+      replace=_sub(RAW_FN_ERR_LOCAL, '\tif err != nil {\n\t\treturn nil, nil, fmt.Errorf("raw signature: %w", err)\n\t}\n', '\tif err != nil {\n\t\tlogger.Debugf("raw signature: %v", err)\n\t}\n')),
+]
+
+# ---- further members of the class: constructor returning the object BY VALUE; raw-path helper written as a plain function
+RAW_CTOR_BY_VALUE = _sub(RAW_CTOR, 'pluginConfig map[string]string) *GenericSigner {\n\treturn &GenericSigner{\n', 'pluginConfig map[string]string) GenericSigner {\n\treturn GenericSigner{\n')
+SIGN_BY_VALUE = '\t\traw := s.genericSigner(ctx, ks, mergedConfig)\n\t\tsig, signerInfo, err := raw.Sign(ctx, desc, withPluginAgent(opts, metadata))\n'
+BLOB_BY_VALUE = _sub(BLOB_TAIL_CTOR, '\t\treturn s.genericSigner(ctx, ks, mergedConfig).SignBlob(ctx, descGenFunc, withPluginAgent(opts, metadata))\n',
+                     '\t\traw := s.genericSigner(ctx, ks, mergedConfig)\n\t\treturn raw.SignBlob(ctx, descGenFunc, withPluginAgent(opts, metadata))\n')
+RAW_PLAIN_FN = _sub(RAW_FN, 'func (s *PluginSigner) generateSignature(ctx context.Context, desc', 'func signWithPluginKey(ctx context.Context, s *PluginSigner, desc')
+PLAIN_EDITS = [(P, RAW_FN, RAW_PLAIN_FN),
+               (P, SIGN_RAW_CALL, '\t\tsig, signerInfo, err := signWithPluginKey(ctx, s, desc, opts, ks, metadata, mergedConfig)\n'),
+               (P, '\t\treturn s.generateSignature(ctx, desc, opts, ks, metadata, mergedConfig)\n', '\t\treturn signWithPluginKey(ctx, s, desc, opts, ks, metadata, mergedConfig)\n')]
+VARIANTS += [
+ dict(name='benign-raw-constructor-by-value', expect='silent', edits=_ctor(sign=SIGN_BY_VALUE, blob=BLOB_BY_VALUE, ctor=RAW_CTOR_BY_VALUE),
+      why='the constructor returns the generic signer by value; the local copy has the field values of the object built'),
+ dict(name='benign-raw-helper-plain-function', expect='silent', edits=PLAIN_EDITS,
+      why='the raw-path helper is a plain function that is handed the plugin signer after the context'),
+ dict(name='by-value-constructor-falls-back-to-local-key', expect='flagged(dispatch/Sign)',
+      edits=_ctor(sign=SIGN_BY_VALUE, blob=BLOB_BY_VALUE, ctor=_sub(RAW_CTOR_BY_VALUE, '\treturn GenericSigner{\n', '\tif local, err := NewGenericSignerFromFiles(pluginConfig["key"], pluginConfig["certs"]); err == nil {\n\t\treturn *local\n\t}\n\treturn GenericSigner{\n'))),
+ dict(name='plain-function-key-id-of-config', expect='flagged(raw/primitive-signer)',
+      edits=[(P, RAW_FN, _sub(RAW_PLAIN_FN, '\t\t\tkeyID:        s.keyID,\n', '\t\t\tkeyID:        pluginConfig["keyID"],\n'))] + PLAIN_EDITS[1:]),
+ dict(name='plain-function-signs-with-other-generic-signer', expect='flagged(dispatch/Sign)',
+      edits=[(P, RAW_FN, _sub(RAW_PLAIN_FN, '\treturn genericSigner.Sign(ctx, desc, opts)\n', '\tif local, err := NewGenericSignerFromFiles(pluginConfig["key"], pluginConfig["certs"]); err == nil {\n\t\treturn local.Sign(ctx, desc, opts)\n\t}\n\treturn genericSigner.Sign(ctx, desc, opts)\n'))] + PLAIN_EDITS[1:]),
+]
